@@ -750,7 +750,9 @@ surprising_value_table(std::move(table)),
 sliding_window(std::move(window)),
 window_offset(determine_correct_offset(lg_k, num_coupons)),
 first_interesting_column(first_interesting_column),
-kxp(kxp),
+// an empty image carries no HIP fields, so restore the initial value k (as in a new sketch);
+// otherwise the first update after deserialization would divide by zero
+kxp(num_coupons == 0 ? static_cast<double>(1 << lg_k) : kxp),
 hip_est_accum(hip_est_accum)
 {}
 
